@@ -280,9 +280,10 @@ def _apply_recursively(mod_cls: Module | Class, processed: set[str]) -> None:
         return
     processed.add(mod_cls.canonical_path)
     if isinstance(mod_cls, Class):
-        # A class inheriting a dataclass is a dataclass too, whether or not it defines its own `__init__`.
+        # A class inheriting a dataclass is a dataclass too, whether or not it defines its own `__init__`
+        # (and so is a class whose decorator only the resolved imports tell to be `dataclass`).
         with suppress(ValueError):
-            if any(_dataclass_decorator(parent.decorators) for parent in mod_cls.mro()):
+            if any(_dataclass_decorator(class_.decorators) for class_ in (mod_cls, *mod_cls.mro())):
                 mod_cls.labels.add("dataclass")
         if "__init__" not in mod_cls.members:
             _set_dataclass_init(mod_cls)
